@@ -108,6 +108,9 @@ impl Default for ExecuteOptions {
 struct ExecutionRuntimeState {
     started_at: Option<Instant>,
     emitted_rows: usize,
+    /// An error raised where no error can be returned (expression evaluation yields plain
+    /// values); the enclosing operator reports it with its next row.
+    deferred_error: Option<Error>,
 }
 
 #[derive(Debug, Default)]
@@ -170,7 +173,26 @@ impl Params {
         if let Ok(mut state) = self.runtime.state.lock() {
             state.started_at = Some(Instant::now());
             state.emitted_rows = 0;
+            state.deferred_error = None;
         }
+    }
+
+    /// Remembers an error that the expression evaluator cannot return; see
+    /// [`Params::take_deferred_error`].
+    pub(crate) fn defer_error(&self, err: Error) {
+        if let Ok(mut state) = self.runtime.state.lock()
+            && state.deferred_error.is_none()
+        {
+            state.deferred_error = Some(err);
+        }
+    }
+
+    pub(crate) fn take_deferred_error(&self) -> Option<Error> {
+        self.runtime
+            .state
+            .lock()
+            .ok()
+            .and_then(|mut state| state.deferred_error.take())
     }
 
     pub(crate) fn check_timeout(&self, stage: &str) -> Result<()> {
